@@ -12,7 +12,11 @@ ASSUMPTIONS = [
     "little-endian host (htole64 = id), 64-bit size_t",
     "value strings contain no NUL byte (they are C strings on every text route); whitespace around numbers is accepted as libyang documents",
     "the theorems are about the executable model lean/LyModel/Val/Model.lean; model = code is checked by correspondence on every run",
-    "derived-type plug-ins (ietf-inet-types, ietf-yang-types), binary, union, identityref, instance-identifier, leafref: laws on the implementation only",
+    "derived-type plug-ins of ietf-inet-types and of ietf-yang-types other than date-and-time, binary, instance-identifier, leafref: laws on the implementation only",
+    "union members are the modelled types (integers, decimal64, boolean, enumeration, bits, string with length and patterns); identityref over generated module "
+    "sets whose module names are distinct from every other module of the context; all identities enabled (no if-feature), all modules implemented",
+    "string patterns: the matcher of the model is the XSD matcher of C18 (XsdRe); the generated patterns stay inside the sub-grammar on which libyang's PCRE2 "
+    "translation is correct (the deviations are findings of C18)",
 ]
 TRUSTED = ["tools/extractors/val.py (bounds, LYB sizes, executed lyplg_type_check_hints table)", "harness/api_types.c"]
 
@@ -46,6 +50,20 @@ def classify(component, what, case):
     # F28: date-and-time sort callback compares instants only
     if ty == "t:ietf-yang-types:date-and-time" and law in ("sort_consistent_with_eq", "leaflist_order") and case.get("reply", [None] * 3)[2] == "0":
         return "F28"
+    # F410: identityref accepts an identity derived from some but not all of the bases
+    if law == "identityref_accept_iff" and case.get("rfc") is None and case.get("got", ["err"])[0] == "ok" and len(case.get("bases", [])) > 1 \
+            and any(case.get("derived_from_base", [])) and not all(case.get("derived_from_base", [])):
+        return "F410"
+    # F411: identityref sort callback looks at the identity name only: same name, different module
+    if ty.startswith("idref:") and law in ("sort_consistent_with_eq", "leaflist_order") and case.get("reply", [None] * 3)[1:4] == ["0", "0", "0"]:
+        a, b = unhex(case["a_hex"]), unhex(case["b_hex"])
+        if a.split(b":")[-1] == b.split(b":")[-1] and a != b:
+            return "F411"
+    # F412: union values of different member types with the same canonical string (sort != 0: different members)
+    if ty.startswith("U(") and law == "eq_iff_canon_eq" and case.get("reply", [None] * 4)[1] == "0" and case["reply"][2] != "0" and case["reply"][3] == "1":
+        return "F412"
+    if ty.startswith("U(") and law == "canon_idempotent" and case.get("cmp") and case["cmp"][1] == "0" and case["cmp"][2] != "0" and case["cmp"][3] == "1":
+        return "F412"
     # F63: a JSON string carrying a 64-bit integer is parsed in base 0 (0x.., leading 0 = octal), the other sources in base 10
     if law in ("same_verdict_all_sources", "hints_base") and head in ("i64", "u64") and case.get("route") == "json-string" \
             and re.match(rb"^[ \t\n\r\x0b\x0c]*[-+]?0[0-9xX]", val):
